@@ -154,6 +154,13 @@ pub struct AbsRepl {
   enforce: u8,
 }
 
+impl AbsRepl {
+  #[allow(clippy::too_many_arguments)]
+  pub fn new(a: u16, b: u16, insert: bool, beyond: u8, content: String, name: u8, enforce: u8) -> Self {
+    AbsRepl { a, b, insert, beyond, content, name, enforce }
+  }
+}
+
 pub fn abs_repl(cfg: GenCfg) -> impl Strategy<Value = AbsRepl> {
   (
     any::<u16>(),
@@ -242,6 +249,19 @@ pub struct AbsSeg {
   oline: u16,
   ocol: u16,
   name: u8,
+}
+
+impl AbsSeg {
+  pub fn new(pos: u16, mapped: u8, src: u16, oline: u16, ocol: u16, name: u8) -> Self {
+    AbsSeg { pos, mapped, src, oline, ocol, name }
+  }
+}
+
+impl AbsMap {
+  #[allow(clippy::too_many_arguments)]
+  pub fn new(segs: Vec<AbsSeg>, nsrc: u8, nnames: u8, dup_names: bool, content_mode: u8, root: u8, src_base: u8, wild: bool) -> Self {
+    AbsMap { segs, nsrc: nsrc.clamp(1, 3), nnames: nnames.min(3), dup_names, content_mode: content_mode.min(2), root, src_base, wild }
+  }
 }
 
 pub fn abs_seg() -> impl Strategy<Value = AbsSeg> {
